@@ -165,6 +165,42 @@ Section Proofs.
     occ t s1 = occ t s2 -> nth_error (ths (run s1 st)) t = nth_error (ths (run s2 st)) t.
   Proof. intros H. rewrite !thread_independent, H. reflexivity. Qed.
 
+  (* ---------- OS worker threads serving several jobs: a worker schedule is a job schedule ---------- *)
+  Notation run_gen := (run_gen sigv sign verify key_of).
+  Notation wseg_gen := (wseg_gen sigv sign verify key_of).
+  Notation wstep_gen := (wstep_gen sigv sign verify key_of).
+  Notation wrun_gen := (wrun_gen sigv sign verify key_of).
+
+  Lemma run_gen_app fixed a b st : run_gen fixed (a ++ b) st = run_gen fixed b (run_gen fixed a st).
+  Proof. unfold Model.run_gen. apply fold_left_app. Qed.
+
+  Lemma wseg_is_run fixed jobs st : exists l, wseg_gen fixed jobs st = run_gen fixed l st.
+  Proof.
+    revert st; induction jobs as [|j r IH]; intros st; cbn [Model.wseg_gen].
+    - exists []. reflexivity.
+    - destruct (nth_error (ths st) j) as [[l [|i p]]|]; try apply IH.
+      cbn zeta. destruct (Nat.eqb _ _).
+      + destruct (IH (step_gen sigv sign verify key_of fixed j st)) as [l' E]. exists (j :: l'). rewrite E. reflexivity.
+      + exists [j]. reflexivity.
+  Qed.
+
+  Lemma wstep_is_run fixed ws w st : exists l, wstep_gen fixed ws w st = run_gen fixed l st.
+  Proof.
+    unfold Model.wstep_gen. destruct (nth_error ws w) as [jobs|]; [apply wseg_is_run|]. exists []. reflexivity.
+  Qed.
+
+  (* every schedule of OS workers, whatever jobs each of them serves and in whichever order, is a
+     schedule of the jobs: nothing new can happen *)
+  Lemma wrun_is_run fixed ws wsched st : exists l, wrun_gen fixed ws wsched st = run_gen fixed l st.
+  Proof.
+    revert st; induction wsched as [|w r IH]; intros st.
+    - exists []. reflexivity.
+    - unfold Model.wrun_gen. cbn [fold_left]. fold (wrun_gen fixed ws r (wstep_gen fixed ws w st)).
+      destruct (wstep_is_run fixed ws w st) as [l1 E1]. rewrite E1.
+      destruct (IH (run_gen fixed l1 st)) as [l2 E2]. rewrite E2.
+      exists (l1 ++ l2). rewrite run_gen_app. reflexivity.
+  Qed.
+
   (* ---------- running a thread to the end ---------- *)
   Definition exec_all (sh0 : shared) (th : thread) : local := fold_left (x1 sh0) (snd th) (fst th).
 
@@ -496,6 +532,31 @@ Section Main.
       subst p. eapply finished_results; eassumption.
   Qed.
 
+  (* ---------- worker pools: OS threads that serve jobs of several entities ---------- *)
+  Definition wfinal (x : input sigv) (ws : list (list nat)) : state sigv :=
+    wrun sigv sign verify (kof (keys x)) ws (sched x) (init_state sigv (kof (keys x)) (gon x) (progs x)).
+
+  Definition resched (x : input sigv) (s : list nat) : input sigv :=
+    {| keys := keys x; gon := gon x; progs := progs x; sched := s |}.
+
+  Lemma wfinal_final (x : input sigv) ws : exists s, wfinal x ws = final (resched x s).
+  Proof.
+    unfold wfinal, wrun.
+    destruct (wrun_is_run sigv sign verify (kof (keys x)) true ws (sched x)
+                (init_state sigv (kof (keys x)) (gon x) (progs x))) as [s E].
+    exists s. rewrite E. reflexivity.
+  Qed.
+
+  Lemma pool_holds (x : input sigv) ws :
+    spec sigv verify x (observe_all sigv verify (keys x) (outs sigv (wfinal x ws))).
+  Proof. destruct (wfinal_final x ws) as [s ->]. exact (own_key_holds (resched x s)). Qed.
+
+  Lemma pool_complete_outs (x : input sigv) ws :
+    finished sigv (wfinal x ws) = true ->
+    outs sigv (wfinal x ws) =
+    map (fun th => map (op_result sigv sign verify (kof (keys x)) (fst th)) (snd th)) (progs x).
+  Proof. destruct (wfinal_final x ws) as [s ->]. exact (complete_outs (resched x s)). Qed.
+
   (* arbitrary instruction programs, arbitrary shared table, any schedule: a signature produced by
      thread t verifies only under the key of t's entity *)
   Lemma own_key_verifies key_of sched (st : state sigv) t l p :
@@ -513,6 +574,45 @@ Section Main.
   Qed.
 End Main.
 
+(* ---------- deployments: the key an entity signs with is the key of the certificate it publishes,
+   namely the pair installed at its path when it was built ---------- *)
+Lemma loaded_published_gen d : forall fs before,
+  (forall p, fread fs p = last_install p before) ->
+  map fst (loaded fs d) = certs_from before d /\ map snd (loaded fs d) = certs_from before d.
+Proof.
+  induction d as [|s r IH]; intros fs before H; [split; reflexivity|].
+  destruct s as [p k st how|p|j]; cbn [loaded certs_from].
+  - apply IH. intros q. cbn [fread last_install]. destruct (Nat.eqb p q); [reflexivity|apply H].
+  - rewrite H. destruct (IH fs (DCreate p :: before)) as [A B]; [intros q; cbn [last_install]; apply H|].
+    destruct (last_install p before); cbn [map fst snd]; [rewrite A, B; split; reflexivity|split; assumption].
+  - apply IH. intros q. cbn [last_install]. apply H.
+Qed.
+
+Lemma deploy_published d : deploy_keys d = published d /\ deploy_certs d = published d.
+Proof. apply loaded_published_gen. intros p. reflexivity. Qed.
+
+Section Deploy.
+  Variable sigv : Type.
+  Variable sign : nat -> nat -> payload -> sigv.
+  Variable verify : nat -> nat -> payload -> sigv -> bool.
+  Hypothesis verify_ideal : forall k d p k' d' p',
+    verify k' d' p' (sign k d p) = true <-> k' = k /\ d' = d /\ p' = p.
+
+  (* the whole process: the main thread installs key pairs, builds entities (and makes calls) in any
+     order; OS workers then serve the jobs under any schedule *)
+  Definition dfinal (d : list dstep) (g : list gate) (ps : list (nat * list (op sigv)))
+    (ws : list (list nat)) (wsched : list nat) : state sigv :=
+    wrun sigv sign verify (kof (deploy_keys d)) ws wsched (init_state sigv (kof (deploy_keys d)) g ps).
+
+  Lemma deploy_pool_holds d g ps ws wsched :
+    spec sigv verify {| keys := published d; gon := g; progs := ps; sched := wsched |}
+         (observe_all sigv verify (deploy_certs d) (outs sigv (dfinal d g ps ws wsched))).
+  Proof.
+    unfold dfinal. destruct (deploy_published d) as [-> ->].
+    exact (pool_holds sigv sign verify verify_ideal {| keys := published d; gon := g; progs := ps; sched := wsched |} ws).
+  Qed.
+End Deploy.
+
 (* ---------- the hypotheses are satisfiable: term algebra ---------- *)
 Lemma payload_eqb_eq a b : payload_eqb a b = true <-> a = b.
 Proof.
@@ -528,6 +628,10 @@ Qed.
 Definition tfinal := final tsig tsign tverify.
 Definition tfinal_v0 (x : input tsig) : state tsig :=
   run_v0 tsig tsign tverify (kof (keys x)) (sched x) (init_state tsig (kof (keys x)) (gon x) (progs x)).
+
+Definition twfinal := wfinal tsig tsign tverify.
+Definition twfinal_v0 (x : input tsig) (ws : list (list nat)) : state tsig :=
+  wrun_v0 tsig tsign tverify (kof (keys x)) ws (sched x) (init_state tsig (kof (keys x)) (gon x) (progs x)).
 
 Lemma instance_holds (x : input tsig) : spec tsig tverify x (observe_all tsig tverify (keys x) (outs tsig (tfinal x))).
 Proof. apply own_key_holds. exact tverify_ideal. Qed.
@@ -556,4 +660,19 @@ Example witness_now :
   finished tsig (tfinal witness) = true /\
   outs tsig (tfinal witness) = [[RSig (1, 2) (Sg 10 2 (1, 2))]; [RSig (2, 2) (Sg 20 2 (2, 2))]] /\
   observe_all tsig tverify (keys witness) (outs tsig (tfinal witness)) = [[OSig [true; false]]; [OSig [false; true]]].
+Proof. vm_compute. auto. Qed.
+
+(* one OS worker serves entity A (key 10), then entity B (key 20), same algorithm, while a second
+   worker serves C (key 30); the key pairs come from a roll-over in place: path 0 first holds pair 10
+   (entity 0 is built), then pair 20 with the SAME time stamp (entity 1 is built); path 1 holds 30 *)
+Definition pool_deploy : list dstep :=
+  [DInstall 1 30 7 0; DInstall 0 10 7 0; DCreate 0; DInstall 0 20 7 0; DCreate 0; DCreate 1].
+
+Example pool_witness :
+  deploy_keys pool_deploy = [10; 20; 30] /\ published pool_deploy = [10; 20; 30] /\
+  let st := dfinal tsig tsign tverify pool_deploy all_gates
+              [(0, [OSign 2 1]); (1, [OSign 2 2]); (2, [OSign 2 3])] [[0; 1]; [2]] [0; 1; 0; 0; 1; 1; 0; 0; 0; 1; 0; 0; 0; 1] in
+  finished tsig st = true /\
+  observe_all tsig tverify (deploy_certs pool_deploy) (outs tsig st) =
+    [[OSig [true; false; false]]; [OSig [false; true; false]]; [OSig [false; false; true]]].
 Proof. vm_compute. auto. Qed.
